@@ -309,6 +309,15 @@ def wl_ufunc(ctx, idx, rng):
             elif extra < 0.5 and all(t is None or np.asarray(unwrap(t)).dtype.kind == "f" for t in targets):
                 kw["casting"] = "same_kind"
                 outform = "out+casting"
+    if raw_ok and 0.25 <= r < 0.33 and not use_dask and not any(isinstance(v, u.Quantity) for v in raw):
+        # a mask without out=: only the selected elements are defined; the mask itself may be a signal (z > 0)
+        try:
+            bshape = np.broadcast_shapes(*[np.shape(v) for v in raw])
+            mask = rng.random(bshape) < 0.5
+            kw["where"] = mask if rng.random() < 0.4 else pb.Signal(mask, sample_rate=1 * u.Hz) if len(bshape) else mask
+            outform = "where"
+        except ValueError:
+            pass
     with warnings.catch_warnings():
         warnings.simplefilter("ignore")
         try:                      # (ctx.call has its own `where=` label argument, which would swallow the ufunc's)
